@@ -31,7 +31,7 @@ def _style_key(cell):
     return (ch, "bold" in attrs, fg, link)
 
 
-def exports_agree(c, expected_cells=None) -> bool:
+def exports_agree(c, expected_cells=None, clear_with=0) -> bool:
     """All exports of console c agree with the visible text in its file."""
     visible = termmodel.strip_escapes(c.file.getvalue())
     plain = c.export_text(clear=False)
@@ -51,8 +51,16 @@ def exports_agree(c, expected_cells=None) -> bool:
     # without clear the record is unchanged; with clear it is emptied
     if c.export_text(clear=False) != plain:
         return False
-    if c.export_text(clear=True) != plain:
-        return False
+    # the clearing export: plain text, styled text or html - each must return the full record and then leave it empty
+    if clear_with == 0:
+        if c.export_text(clear=True) != plain:
+            return False
+    elif clear_with == 1:
+        if termmodel.sgr_decode(c.export_text(clear=True, styles=True)).text != visible:
+            return False
+    else:
+        if html.unescape(_TAG.sub("", c.export_html(clear=True, code_format="{code}"))) != visible:
+            return False
     return c.export_text() == "" and _TAG.sub("", c.export_html(code_format="{code}")) == ""
 
 
@@ -62,7 +70,7 @@ def _mk_unit(nseg, tiers, timeout):
                  "text from %r with a style from {none, bold, red+link, bold again} or an unstyled control segment from %r "
                  "(solver-enumerated, native): export_text == visible text of the file; export_html (both modes) with tags removed "
                  "and entities decoded == same and free of control characters; export_text(styles=True) decodes to the same "
-                 "characters with the same bold/colour/link; clear semantics" % (SYSTEMS, nseg, TEXTS, CTRL),
+                 "characters with the same bold/colour/link; clear semantics for each of the three exports (solver-chosen)" % (SYSTEMS, nseg, TEXTS, CTRL),
           outside="longer segment lists; wide characters; styled control segments (LiveRender frames, see C03)")
     def h(e):
         system = SYSTEMS[int(e.mk("system", 0, len(SYSTEMS) - 1))]
@@ -89,7 +97,7 @@ def _mk_unit(nseg, tiers, timeout):
                 else:
                     col = ("std", 1) if st.color is not None else None
                     cells.append((ch, bool(st.bold), col, st.link))
-        return exports_agree(c, cells)
+        return exports_agree(c, cells, int(e.mk("clear_with", 0, 2)))
     return h
 
 
